@@ -469,6 +469,11 @@ func c12GenCase(r *Rng, id int, focus bool) *c12Case {
 		force = 0
 	}
 	k.val = c12GenData(r, 1+r.Intn(4), o, force)
+	if m, ok := k.val.(*c12Map); ok && k.escape && r.Bool() {
+		// --escape must not change data: make sure HTML-significant characters are present
+		m.Keys = append(m.Keys, "h<&>")
+		m.Vals = append(m.Vals, "<a href='x'>&amp; & </a>")
+	}
 	// one case in six: a package that is not concrete data
 	if k.input != "json" && r.Chance(1, 6) {
 		bad := Pick(r, c12BadExprs)
